@@ -2,11 +2,15 @@ use crate::document::{as_position, utf16_len, DocumentRequest};
 use color_eyre::eyre::Result;
 use lsp_types::{Position, SemanticToken, SemanticTokens, SemanticTokensParams};
 use spl_frontend::{
-    ast::{AstInfo, GlobalDeclaration, ProcedureDeclaration, TypeDeclaration},
+    ast::{
+        AstInfo, GlobalDeclaration, Identifier, ParameterDeclaration, ProcedureDeclaration,
+        TypeDeclaration, VariableDeclaration,
+    },
     table::{Entry, GlobalTable, LookupTable},
     tokens::{Token, TokenType},
     AnalyzedSource, ToRange,
 };
+use std::ops::Range;
 use tokio::sync::mpsc::Sender;
 
 pub const TOKEN_TYPES: [lsp_types::SemanticTokenType; 7] = [
@@ -100,12 +104,15 @@ fn collect_type_dec(
     tokens: &[Token],
     previous_token_pos: &mut Position,
 ) -> Vec<SemanticToken> {
+    let name_range = td
+        .name
+        .as_ref()
+        .and_then(|name| name_token_range(name, 0, tokens));
     td.info
         .slice(tokens)
         .iter()
         .filter_map(|token| {
-            let semantic_token = if matches!(&td.name, Some(name) if name.to_range() == token.range)
-            {
+            let semantic_token = if matches!(&name_range, Some(range) if *range == token.range) {
                 Some(create_semantic_token(
                     token,
                     *previous_token_pos,
@@ -143,12 +150,16 @@ fn collect_proc_dec(
         local_table: super::get_local_table(pd, global_table),
         global_table: Some(global_table),
     };
+    let name_range = pd
+        .name
+        .as_ref()
+        .and_then(|name| name_token_range(name, 0, tokens));
+    let local_declarations = local_declaration_ranges(pd, tokens);
     pd.info
         .slice(tokens)
         .iter()
         .filter_map(|token| {
-            let semantic_token = if matches!(&pd.name, Some(name) if name.to_range() == token.range)
-            {
+            let semantic_token = if matches!(&name_range, Some(range) if *range == token.range) {
                 Some(create_semantic_token(
                     token,
                     *previous_token_pos,
@@ -172,8 +183,8 @@ fn collect_proc_dec(
                         SemanticTokenType::Function.into(),
                         SemanticTokenModifier::None.into(),
                     ),
-                    Entry::Variable(variable) => {
-                        let modifier = if variable.name.to_range() == token.range {
+                    Entry::Variable(_) => {
+                        let modifier = if local_declarations.contains(&token.range) {
                             SemanticTokenModifier::Declaration
                         } else {
                             SemanticTokenModifier::None
@@ -186,8 +197,8 @@ fn collect_proc_dec(
                             modifier.into(),
                         )
                     }
-                    Entry::Parameter(param) => {
-                        let modifier = if param.name.to_range() == token.range {
+                    Entry::Parameter(_) => {
+                        let modifier = if local_declarations.contains(&token.range) {
                             SemanticTokenModifier::Declaration
                         } else {
                             SemanticTokenModifier::None
@@ -210,6 +221,43 @@ fn collect_proc_dec(
             semantic_token
         })
         .collect()
+}
+
+/// The text range of the token that holds the identifier itself.
+/// That is the last token in the range of the identifier (which might start with comments).
+/// `offset` is the position of the `Reference` the identifier is relative to.
+fn name_token_range(name: &Identifier, offset: usize, tokens: &[Token]) -> Option<Range<usize>> {
+    let end = offset + name.to_range().end;
+    if end == 0 || end > tokens.len() {
+        return None;
+    }
+    Some(tokens[end - 1].range.clone())
+}
+
+/// The text ranges of all tokens that declare a parameter or a local variable of the procedure.
+fn local_declaration_ranges(pd: &ProcedureDeclaration, tokens: &[Token]) -> Vec<Range<usize>> {
+    let mut ranges = Vec::new();
+    for param in &pd.parameters {
+        if let ParameterDeclaration::Valid {
+            name: Some(name), ..
+        } = param.as_ref()
+        {
+            if let Some(range) = name_token_range(name, param.offset, tokens) {
+                ranges.push(range);
+            }
+        }
+    }
+    for var in &pd.variable_declarations {
+        if let VariableDeclaration::Valid {
+            name: Some(name), ..
+        } = var.as_ref()
+        {
+            if let Some(range) = name_token_range(name, var.offset, tokens) {
+                ranges.push(range);
+            }
+        }
+    }
+    ranges
 }
 
 fn collect_error(
